@@ -143,7 +143,7 @@ func sizeForm(v ssa.Value, depth int) linform {
 	switch x := v.(type) {
 	case *ssa.Const:
 		if x.Value != nil {
-			return linform{atoms: map[string]int{}, k: x.Int64(), ok: true}
+			return linform{atoms: map[string]int{}, k: constInt64(x), ok: true}
 		}
 	case *ssa.Convert:
 		return sizeForm(x.X, depth+1)
@@ -481,7 +481,7 @@ func c13Goodbye(c *Ctx) {
 							return false, false
 						}
 						switch {
-						case cm.op == token.LEQ && k.Int64() <= 1, cm.op == token.LSS && k.Int64() <= 2, cm.op == token.EQL && k.Int64() <= 1:
+						case cm.op == token.LEQ && constInt64(k) <= 1, cm.op == token.LSS && constInt64(k) <= 2, cm.op == token.EQL && constInt64(k) <= 1:
 							return truth, !truth
 						}
 						return false, false
